@@ -305,7 +305,7 @@ def _ctxs():
         return E('O', T('DEL', h, 0, 0, 0), f'({t})', t)
 
     @ctx('selO_subj', 'O', 'O')
-    def _(h, fr): return E('O', T('S', h, 0, 0, 0, 0), f'(select ({h.text}) {{ msg }})')
+    def _(h, fr): return E('O', T('S', h, lst(('L', '0')), 0, 0, 0), f'(select ({h.text}) {{ msg }})')
 
     @ctx('selO_shapeO', 'O', 'O')
     def _(h, fr):
@@ -332,6 +332,25 @@ def _ctxs():
         return E('O', T('F', x, ('P', '2', 'L', '1', 'L', '2'), h), f'(for x{x} in {{1, 2}} union ({h.text}))',
                  f'for x{x} in {{1, 2}} union ({h.text})')
 
+    # ---- free-object shapes (the one SELECT shape that accepts DML, when written in an exposed position)
+    @ctx('free_proj', 'O', 'O')
+    def _(h, fr): return E('O', T('P', 1, ('FR', *lst(h))), f'(select {{ a := ({h.text}) }}).a')
+
+    @ctx('free_bare', 'O', 'O')
+    def _(h, fr): return E('O', T('P', 1, ('FR', *lst(h))), f'({{ a := ({h.text}) }}).a')
+
+    @ctx('free_nested', 'O', 'O')
+    def _(h, fr): return E('O', T('P', 1, ('FR', '1', 'FR', *lst(h))), f'(select {{ a := {{ b := ({h.text}) }} }}).a.b')
+
+    @ctx('free_projI', 'I', 'I')
+    def _(h, fr): return E('I', T('P', 1, ('FR', *lst(h, LIT1))), f'(select {{ a := ({h.text}), b := 1 }}).a')
+
+    @ctx('free_sibling', 'I', 'I')
+    def _(h, fr): return E('I', T('P', 1, ('FR', *lst(h, LIT1))), f'(select {{ a := ({h.text}), b := 1 }}).b')
+
+    @ctx('free_count', 'O', 'I')
+    def _(h, fr): return E('I', T('P', 1, ('FR', *lst(h))), f'count((select {{ a := ({h.text}) }}))')
+
     @ctx('ifO_then', 'O', 'O')
     def _(h, fr): return E('O', T('I', ex(LOGS), h, LOGS),
                           f'(({h.text}) if exists (select Log) else (select Log))')
@@ -339,6 +358,24 @@ def _ctxs():
 
 
 CTX = _ctxs()
+
+
+FREE_MODEL_LEAVES = {'insert', 'update', 'delete', 'logs', 'lit', 'rd', 'rd2'}
+
+
+def modelled(chain, lk) -> bool:
+    """is the accept/reject outcome of this term inside what the MiniQL model describes?  The real rule for
+    DML in free-object shapes depends on `partial_path_prefix` / exposure bookkeeping that the model only
+    follows for a free object applied directly to a DML-statement (or pure) leaf and not itself nested in
+    another shape; everything else with a free object is judged by the oracle only."""
+    fr = [i for i, c in enumerate(chain) if c.startswith('free')]
+    if not fr:
+        return True
+    if fr != [0] or chain[0] == 'free_nested':
+        return False
+    if not isinstance(lk, str) or lk not in FREE_MODEL_LEAVES:
+        return False
+    return not any(c in ('selO_shape', 'selO_shapeO') for c in chain[1:])
 
 
 def stmt_text(e: E, mode: str) -> str:
@@ -365,6 +402,7 @@ class FnSpec:
     top: bool           # body is the statement form (`with x := … select x`) rather than `(…)`
     deps: tuple         # names of generated functions the body calls
     meta: dict
+    modelled: bool = True
 
     @property
     def ddl(self) -> str:
@@ -383,6 +421,7 @@ class FnSpec:
 
 
 FN_DML = ['insert', 'update', 'delete', 'mklog', 'mkinf', 'mk2']
+FN_LEAVES = FN_DML + ['noop']      # noop(): declared Modifying, pure body - callers are NOT inferred Modifying
 
 
 def gen_fn_specs(rng, quick: bool) -> list[FnSpec]:
@@ -398,6 +437,9 @@ def gen_fn_specs(rng, quick: bool) -> list[FnSpec]:
             top = bool(e.top) and rng.random() < 0.7
         sp = FnSpec(f'fg{len(specs)}', annot, e, top, tuple(deps),
                     {'chain': chain, 'leaf': lk if isinstance(lk, str) else lk.text, 'annot': annot})
+        by = {x.name: x for x in specs}
+        sp.modelled = (modelled(chain, lk) if isinstance(lk, str) else not any(c.startswith('free') for c in chain)) \
+            and all(by[d].modelled for d in deps)
         specs.append(sp)
         return sp
 
@@ -405,7 +447,13 @@ def gen_fn_specs(rng, quick: bool) -> list[FnSpec]:
     for cn in names:
         if quick:
             lk = rng.choice(FN_DML)
-            if build([cn], lk).top:
+            if cn.startswith('free'):
+                # the only DML of the body inside a free-object shape computed; volatility inferred
+                level1.append(add([cn], rng.choice(['insert', 'update', 'delete']), 'none'))
+                level1.append(add([cn, rng.choice(names)], rng.choice(['insert', 'update', 'delete']), 'none'))
+                if rng.random() < 0.5:
+                    add([cn], rng.choice(['mklog', 'noop', 'logs']), 'none')
+            elif build([cn], lk).top:
                 # statement-form bodies (WITH / FOR / DML statements): always with the volatility inferred
                 level1.append(add([cn], lk, 'none', top=True))
                 if cn.startswith('with'):
@@ -421,6 +469,8 @@ def gen_fn_specs(rng, quick: bool) -> list[FnSpec]:
         level1.append(add(chain, rng.choice(FN_DML), rng.choice(['none', 'none', 'mod'])))
     for _ in range(5 if quick else 60):          # declared lower than inferred: must be rejected
         add([rng.choice(names)], rng.choice(FN_DML), 'low')
+    for _ in range(6 if quick else 120):         # declared-Modifying callee with a pure body: caller not Modifying
+        add([rng.choice(names)], 'noop', rng.choice(['none', 'none', 'low', 'mod']))
     for _ in range(6 if quick else 60):          # pure controls
         add([rng.choice(names)], rng.choice(['rd', 'logs', 'lit']), rng.choice(['none', 'low']))
     # call chains: g calls a generated f (whose DML sits in some context), h calls g
@@ -434,6 +484,40 @@ def gen_fn_specs(rng, quick: bool) -> list[FnSpec]:
         chain = [rng.choice(names) for _ in range(rng.choice([0, 1]))]
         add(chain, g.call, 'none', deps=(g.name,))
     return specs
+
+
+# function bodies outside the MiniQL grammar (oracle only); every body is int64-valued. {D} = leaf
+FN_EXTRA_BODIES = [
+    'select count((select {{ a := {D} }}).a)', 'select count(({{ a := {D} }}).a)',
+    'select count((select {{ a := {{ b := {D} }} }}).a.b)', 'select (select {{ a := {D}, b := 1 }}).b',
+    'select count(((select {{ a := {D} }}).a, 1).0)', 'select count(((select {{ a := {D} }}).a, random()).0)',
+    'select array_unpack([(select {{ a := count({D}) }}).a])', 'select (x := (select {{ a := count({D}) }}).a).x',
+    'for x in {{1, 2}} union count((select {{ a := {D} }}).a)',
+    'for x in {{1, 2}} union (select {{ a := count({D}), b := x }}).b',
+    'with z := 1 select count((select {{ a := {D} }}).a) + z',
+    'select count((select {{ a := {D} }}).a) if true else 0',
+    'select 0 if exists (select {{ a := {D} }}).a else 1',
+    'select <int64>{{}} ?? count((select {{ a := {D} }}).a)',
+    'select count({{ (select {{ a := {D} }}).a, (select Log) }})',
+    'select count(assert_exists((select {{ a := {D} }}).a))', 'select count((select {{ a := (select {D}) }}).a)',
+    'select count((select {{ a := (for z in {{1}} union {D}) }}).a)',
+    'select count((select {{ a := (with q := {D} select q) }}).a)',
+    'select count((select (select {{ a := {D} }})).a)', 'select count((select {{ a := {D} }} filter true).a)',
+    'select count((select {{ a := {D} }} limit 1).a)', 'select count((select {{ multi a := {D} }}).a)',
+    'select (select {{ a := count({D}) }}).a', 'select count((select {{ a := {D} }}).a.msg)',
+    'select count(<json>(select {{ a := {D} }}))', 'select count((select {{ a := {D} }}))',
+    'select count((insert User {{ name := "u", logs := (select {{ a := {D} }}).a }}))',
+    'select count((update User set {{ logs := (select {{ a := {D} }}).a }}))',
+    'select count((select {{ a := (select {{ b := {D} }}).b }}).a)',
+    'select count((select {{ a := {D}, b := {D} }}).b)',
+    # object-type shapes (DML there is rejected; listed so that a relaxation would be noticed)
+    'select count((select Log {{ z := {D} }}))', 'select count((select User {{ logs: {{ z := {D} }} }}))',
+    'select count((select {D} {{ z := {D} }}))',
+]
+FN_EXTRA_LEAVES = {
+    'insert': '(insert Log { msg := "fx" })', 'update': '(update Log set { n := 2 })', 'delete': '(delete Log)',
+    'mklog': 'mklog()', 'pure': '(select Log)',
+}
 
 
 # ================================================================ real side
@@ -508,6 +592,28 @@ class Real:
             else:
                 out.append(('ok', int(r.capabilities)))
         return out
+
+    def body_volatility(self, schema, body_stmt):
+        """compile a function body (as a statement) with the real compiler and run the real
+        `inference.infer_volatility` twice on the finished IR: as stored by the compiler (inference cache
+        filled incrementally during compilation) and from scratch (empty cache) -> (warm, cold) | None"""
+        from edb.edgeql.compiler import inference
+
+        class Env:
+            pass
+        try:
+            ir = self.env.compile_to_ir(schema, body_stmt)
+        except Exception:
+            return None
+        env = Env()
+        env.inferred_volatility = {}
+        env.singletons = set(ir.singletons or ())
+        env.schema = ir.schema
+        try:
+            cold = inference.infer_volatility(ir.expr, env)
+        except Exception as e:
+            return (str(ir.volatility), f'error {type(e).__name__}: {e}'[:120])
+        return (str(ir.volatility), str(cold))
 
     def classify(self, e):
         m = str(e)
@@ -811,7 +917,7 @@ def run(ctx: core.Ctx):
         after.append(cb)
 
     stats = {'l1_group': 0, 'l1_mkerr': 0, 'terms': 0, 'extra': 0, 'kinds': 0, 'scripts': 0,
-             'fn_created': 0, 'fn_callers': 0, 'kinds_flagged': 0}
+             'fn_created': 0, 'fn_callers': 0, 'kinds_flagged': 0, 'oracle_only_terms': 0}
     outcome_hist: dict[str, int] = {}
     ctx_hist: dict[str, int] = {}
     leaf_hist: dict[str, int] = {}
@@ -889,7 +995,7 @@ def run(ctx: core.Ctx):
         return rng.getrandbits(64)
 
     # ============================================================ level 2 (a)
-    def check_term(e: E, mode: str, meta, sctx=None, schema=None, fn_detail=None):
+    def check_term(e: E, mode: str, meta, sctx=None, schema=None, fn_detail=None, model=True):
         """`sctx`/`schema`: compile against a schema extended with generated functions;
         `fn_detail`: what a replay needs to rebuild that schema and the model environment"""
         text = stmt_text(e, mode)
@@ -955,7 +1061,10 @@ def run(ctx: core.Ctx):
                               'real_detail': real[2] if real[0] == 'rej' else real[1], 'model': m,
                               'oracle_can_write': has, 'oracle_model_contains': has_model, 'meta': meta} | fnd,
                              no_input=True)
-        ask(line, cb)
+        if model:
+            ask(line, cb)
+        else:
+            stats['oracle_only_terms'] += 1
 
     # ============================================================ level 2 (b)
     def check_extra(tmpl, lk, mode='query'):
@@ -1183,7 +1292,8 @@ def run(ctx: core.Ctx):
                              'on whether the function is Modifying',
                              detail | {'real': rs, 'real_detail': real[2] if real[0] == 'rej' else real[4], 'model': m},
                              no_input=True)
-            ask(sp.decl, cb if judge else (lambda m: None))
+            if sp.modelled:
+                ask(sp.decl, cb if judge else (lambda m: None))
         return sch, accepted, by_name
 
     def check_fn_callers(accepted, by_name, sch, n_ctx):
@@ -1193,10 +1303,130 @@ def run(ctx: core.Ctx):
             chain_specs = closure(sp, by_name) + [sp]
             fd = {'callee': sp.name, 'ddls': [x.ddl for x in chain_specs], 'decls': [x.decl for x in chain_specs]}
             chains = [[]] + [[rng.choice(names) for _ in range(rng.choice([1, 1, 2]))]
-                             for _ in range(n_ctx if n_ctx >= 1 else int(rng.random() < 0.5))]
+                             for _ in range(n_ctx if n_ctx >= 1 else int(rng.random() < 0.3))]
             for ch in chains:
                 mode = 'analyze' if rng.random() < 0.1 else 'query'
-                check_term(build(ch, sp.call), mode, {'chain': ch, 'callee': sp.meta}, sctx2, sch, fd)
+                check_term(build(ch, sp.call), mode, {'chain': ch, 'callee': sp.meta}, sctx2, sch, fd,
+                           model=sp.modelled and not any(c.startswith('free') for c in ch))
+
+    def check_plain(text, sctx, schema, fn_detail):
+        """oracle only: a statement over a schema with hand-written functions"""
+        real = R.compile(text, sctx)
+        has, found, _hm = R.contains_dml(text, schema)
+        stats['fn_callers'] += 1
+        oc = ('ok:MOD' if real[1] & MOD else 'ok:none') if real[0] == 'ok' else f'rej:{real[1]}'
+        outcome_hist['fx:' + oc] = outcome_hist.get('fx:' + oc, 0) + 1
+        if real[0] == 'ok' and has:
+            distinct.add(text + ' / ' + fn_detail['ddls'][-1])
+            if not (real[1] & MOD):
+                ctx.fail(f'oracle:fn:{fn_detail["callee"]}:query:{text} / ' + ' '.join(fn_detail['ddls']),
+                         'executing the statement can write (DML, transitively, in the stored body of a called '
+                         'function) but the compiler did not attach MODIFICATIONS',
+                         {'text': text, 'mode': 'query', 'dml_nodes': found, 'capabilities': real[1],
+                          'fn': fn_detail})
+        elif real[0] == 'rej' and real[1] == 'internal':
+            internal.append({'text': text, 'error': real[2]})
+
+    def extra_function_bodies():
+        """function bodies outside MiniQL (free-object shapes inside tuples, arrays, ??, IF, FOR, nested
+        free objects...), volatility NOT declared, created through the real DDL path; oracle only"""
+        sch = R.schema
+        made = []
+        n = 0
+        tmpls = list(FN_EXTRA_BODIES)
+        if ctx.quick():      # the core free-object positions always, a rotating sample of the rest
+            tmpls = tmpls[:8] + rng.sample(tmpls[8:], 8)
+        for tmpl in tmpls:
+            lks = list(FN_EXTRA_LEAVES)
+            if ctx.quick():
+                lks = [rng.choice(['insert', 'update', 'delete'])] + ([rng.choice(['mklog', 'pure'])]
+                                                                         if rng.random() < 0.2 else [])
+            for lk in lks:
+                name = f'fx{n}'
+                n += 1
+                body = tmpl.format(D=FN_EXTRA_LEAVES[lk])
+                ddl = f'create function {name}() -> set of int64 using ({body});'
+                real = R.create_fn(sch, ddl, name)
+                stats['fn_created'] += 1
+                fn_annot_hist['extra:none'] = fn_annot_hist.get('extra:none', 0) + 1
+                if real[0] != 'ok':
+                    fn_hist['rej:' + real[1]] += 1
+                    if real[1] == 'internal':
+                        internal.append({'text': ddl, 'error': real[2]})
+                    continue
+                sch = real[1]
+                fn_hist['created'] += 1
+                fn_hist['created_modifying'] += bool(real[2])
+                fn_hist['created_body_can_write'] += bool(real[3])
+                ddls = [ddl]
+                if real[3] and not real[2]:
+                    ctx.fail('oracle:fndef:' + ddl, 'the body of the function contains DML (' + real[3][0] + ') but '
+                             'the function is stored with volatility ' + real[4] + ': calls of it are not recorded '
+                             'as DML', {'fndef': {'name': name, 'ddls': ddls, 'decls': [f'decl {name} none L 0']},
+                                        'stored_volatility': real[4]})
+                made.append((name, ddls))
+                check_body_inference(body, R.schema, [], name)
+                if rng.random() < (0.25 if ctx.quick() else 1.0):     # chain g -> f
+                    g = f'gx{n}'
+                    gddl = f'create function {g}() -> set of int64 using ({rng.choice(["select ", "select 1 + ", ""])}{name}());'
+                    r2 = R.create_fn(sch, gddl, g)
+                    stats['fn_created'] += 1
+                    if r2[0] == 'ok':
+                        sch = r2[1]
+                        fn_hist['created'] += 1
+                        fn_hist['created_modifying'] += bool(r2[2])
+                        fn_hist['created_body_can_write'] += bool(r2[3])
+                        if r2[3] and not r2[2]:
+                            ctx.fail('oracle:fndef:' + ddl + ' ' + gddl, 'the body of the function calls a function '
+                                     'whose body contains DML (' + r2[3][0] + ') but the function is stored with '
+                                     'volatility ' + r2[4],
+                                     {'fndef': {'name': g, 'ddls': [ddl, gddl],
+                                                'decls': [f'decl {name} none L 0', f'decl {g} none L 0']},
+                                      'stored_volatility': r2[4]})
+                        made.append((g, [ddl, gddl]))
+                    else:
+                        fn_hist['rej:' + r2[1]] += 1
+        sctx2 = R.env.server_context(sch)
+        for name, ddls in made:
+            fd = {'callee': name, 'ddls': ddls,
+                  'decls': [f'decl {d.split(" ")[2].split("(")[0]} none L 0' for d in ddls]}
+            texts = [f'select {name}()']
+            if not ctx.quick() or rng.random() < 0.15:
+                texts.append(rng.choice([f'with x := {name}() select x', f'for x in {{1, 2}} union {name}() + x',
+                                         f'select count((select Log filter .n = 1)) + {name}()',
+                                         f'select {{ 0, {name}() }}', f'analyze select {name}()']))
+            for t in texts:
+                check_plain(t, sctx2, sch, fd)
+
+    vol_hist = {'bodies': 0, 'can_write': 0}
+
+    def check_body_inference(body_stmt, schema, ddls, name):
+        """the mechanism under the function-call flag: volatility inference of a body whose AST contains
+        DML (transitively) must say Modifying, and must not depend on how warm the inference cache is"""
+        r = R.body_volatility(schema, body_stmt)
+        if r is None:
+            return
+        warm, cold = r
+        w = R.contains_dml(body_stmt, schema)[0]
+        vol_hist['bodies'] += 1
+        vol_hist['can_write'] += bool(w)
+        detail = {'volinfer': {'body': body_stmt, 'ddls': ddls, 'name': name}, 'warm': warm, 'cold': cold,
+                  'example_statement': f'select {name}()'}
+        if w and warm != 'Modifying':
+            # the value CREATE FUNCTION stores is wrong: `select f()` loses MODIFICATIONS -- a failing input
+            ctx.fail('oracle:volinfer:' + body_stmt, 'volatility inference of a function body that contains DML '
+                     f'is not Modifying (as compiled: {warm}; re-inferred on the finished IR with an empty '
+                     f'inference cache: {cold}); CREATE FUNCTION stores this value and `select {name}()` is '
+                     'flagged MODIFICATIONS only if it is Modifying', detail)
+        elif warm != cold:
+            # the stored value (and hence every flag) is still right; only the inference FUNCTION no longer
+            # agrees with itself from a cold cache.  That is a broken correspondence (the model's inference
+            # is a function of the term), not a statement with wrong capabilities: reported without a
+            # failing input (no-failing-input-found), never as a wrongly flagged statement.
+            ctx.fail('corr:volinfer-cold-cache:' + body_stmt, 'volatility inference depends on the state of the '
+                     f'inference cache (as compiled: {warm}, from scratch on the finished IR: {cold}); the value '
+                     f'stored by CREATE FUNCTION and the flags of `select {name}()` are unaffected', detail,
+                     no_input=True)
 
     # ------------------------------------------------------------ populations
     if replay is not None:
@@ -1208,6 +1438,14 @@ def run(ctx: core.Ctx):
                 l1_group(d['caps'])
             elif d.get('l1') == 'mkerr':
                 l1_mkerr(d['s'], d['a'])
+            elif 'volinfer' in d:
+                sch = R.schema
+                for ddl in d['volinfer']['ddls']:
+                    real = R.create_fn(sch, ddl, ddl.split(' ')[2].split('(')[0])
+                    if real[0] != 'ok':
+                        break
+                    sch = real[1]
+                check_body_inference(d['volinfer']['body'], sch, d['volinfer']['ddls'], d['volinfer']['name'])
             elif 'fndef' in d:
                 sps = []
                 for ddl, decl in zip(d['fndef']['ddls'], d['fndef']['decls']):
@@ -1232,12 +1470,15 @@ def run(ctx: core.Ctx):
                         okk = False
                         break
                     sch = real[1]
-                if okk:
+                if okk and 'toks' not in d:
+                    check_plain(d['text'], R.env.server_context(sch), sch, d['fn'])
+                elif okk:
                     e = E('?', tuple(d['toks']), '', top=d['text'][8:] if d['mode'] == 'analyze' else d['text'])
                     check_term(e, d['mode'], d.get('meta'), R.env.server_context(sch), sch, d['fn'])
             elif 'toks' in d:
                 e = E('?', tuple(d['toks']), '', top=d['text'][8:] if d['mode'] == 'analyze' else d['text'])
-                check_term(e, d['mode'], d.get('meta'))
+                m_ = d.get('meta') or {}
+                check_term(e, d['mode'], d.get('meta'), model=modelled(m_.get('chain', []), m_.get('leaf', 'lit')))
             elif 'kind_row' in d:
                 k = d['kind_row'].split(' ')
                 check_kind((k[0], tuple(k[1:])), d['prefix'], d['ctx'], d['stmt'], d.get('stream', 'default'))
@@ -1271,11 +1512,11 @@ def run(ctx: core.Ctx):
         for cn in names:
             for lk in (['insert', 'update'] + rng.sample(QUICK_OTHERS, 2) if ctx.quick() else ALWAYS + OTHERS):
                 e = build([cn], lk)
-                check_term(e, 'query', {'chain': [cn], 'leaf': lk})
+                check_term(e, 'query', {'chain': [cn], 'leaf': lk}, model=modelled([cn], lk))
                 ctx_hist[cn] = ctx_hist.get(cn, 0) + 1
                 leaf_hist[lk] = leaf_hist.get(lk, 0) + 1
                 if lk in ('insert', 'mkinf', 'rd') and (not ctx.quick() or rng.random() < 0.25):
-                    check_term(e, 'analyze', {'chain': [cn], 'leaf': lk})
+                    check_term(e, 'analyze', {'chain': [cn], 'leaf': lk}, model=modelled([cn], lk))
         # bare leaves as whole statements
         for lk in DML_LEAVES + PURE_LEAVES:
             check_term(leaf(lk), 'query', {'chain': [], 'leaf': lk})
@@ -1287,7 +1528,8 @@ def run(ctx: core.Ctx):
             for c1 in names:
                 for c2 in names:
                     for lk in (rng.choice(['insert', 'insert', 'update', 'delete', 'mklog', 'mkinf', 'mk2', 'noop', 'rd', 'logs']),):
-                        check_term(build([c1, c2], lk), 'query', {'chain': [c1, c2], 'leaf': lk})
+                        check_term(build([c1, c2], lk), 'query', {'chain': [c1, c2], 'leaf': lk},
+                                   model=modelled([c1, c2], lk))
         for _ in range(n_rand):
             depth = rng.choice([2, 2, 3, 3, 4])
             chain = [rng.choice(names) for _ in range(depth)]
@@ -1296,7 +1538,7 @@ def run(ctx: core.Ctx):
                 ctx_hist[c] = ctx_hist.get(c, 0) + 1
             leaf_hist[lk] = leaf_hist.get(lk, 0) + 1
             check_term(build(chain, lk), 'analyze' if rng.random() < 0.15 else 'query',
-                       {'chain': chain, 'leaf': lk})
+                       {'chain': chain, 'leaf': lk}, model=modelled(chain, lk))
         ctx.log(f'MiniQL terms done: {stats["terms"]} compiles in {time.time() - t0:.1f}s')
 
         # ---- level 2 (e): functions whose body has the DML in every context, and their callers
@@ -1305,7 +1547,16 @@ def run(ctx: core.Ctx):
         sch_fn, accepted, by_name = create_functions(specs, R.schema)
         ctx.log(f'{len(specs)} generated functions through the real DDL path in {time.time() - t0:.1f}s: {fn_hist}')
         check_fn_callers(accepted, by_name, sch_fn, 0 if ctx.quick() else 3)
+        for sp in accepted:
+            if ctx.quick() and not (sp.meta['chain'] and sp.meta['chain'][0].startswith('free')) and rng.random() > 0.25:
+                continue
+            stmt = sp.body.top if (sp.top and sp.body.top) else 'select ' + sp.body.text
+            check_body_inference(stmt, sch_fn, [x.ddl for x in closure(sp, by_name)], sp.name)
         ctx.log(f'callers of generated functions done: {stats["fn_callers"]} compiles, {time.time() - t0:.1f}s')
+        t0 = time.time()
+        extra_function_bodies()
+        ctx.log(f'hand-written function bodies (free-object shapes ...) and their callers done in '
+                f'{time.time() - t0:.1f}s: {fn_hist}')
 
         # ---- level 2 (b)
         for tmpl in EXTRA_CONTEXTS:
@@ -1352,13 +1603,15 @@ def run(ctx: core.Ctx):
                 else:
                     chain = [rng.choice(names) for _ in range(rng.choice([0, 1, 2]))]
                     lk = rng.choice(DML_LEAVES + PURE_LEAVES * 2)
+                    if not modelled(chain, lk):
+                        chain = [c for c in chain if not c.startswith('free')]
                     e = build(chain, lk)
                     mode = 'analyze' if rng.random() < 0.1 else 'query'
                     parts.append((stmt_text(e, mode), (mode, *e.toks)))
             check_script(parts)
 
     # ------------------------------------------------------------ model side
-    model = ctx.driver('C08', lines)
+    model = ctx.driver('C08', lines) if lines else []
     if len(model) != len(lines):
         raise core.Infra(f'driver returned {len(model)} lines for {len(lines)}')
     for ln, m, cb in zip(lines, model, after):
@@ -1410,6 +1663,7 @@ def run(ctx: core.Ctx):
         'internal_errors': len(internal),
         'precision_record': precision,
         'generated_functions': fn_hist,
+        'body_volatility_inference': vol_hist,
         'statement_kinds_under_context_flags': flag_hist,
         'generated_functions_by_annotation': fn_annot_hist,
         'statement_kinds': kinds_cov,
